@@ -56,6 +56,10 @@ const (
 	healTimeout = 60 * time.Second
 )
 
+// outageTexts: the error replies of an injected outage, in rotation.
+var outageTexts = []string{injectedErr, injectedErr, "placeholder", injectedErr, injectedErr, "sql: no rows in result set",
+	injectedErr, injectedErr, "verif: configured not-found error", injectedErr}
+
 // ---------------------------------------------------------------- proxy
 
 type proxy struct {
@@ -142,7 +146,8 @@ type node struct {
 	rds  *redis.Redis // through the proxy; owns the client (hooks, breaker) of this address
 	w    *world
 
-	kind atomic.Value // string: current outage kind
+	kind    atomic.Value // string: current outage kind
+	errText atomic.Value // string: the text of the error replies of the current outage
 
 	mu   sync.Mutex
 	dels []delRec
@@ -159,12 +164,12 @@ func (n *node) hook(c *server.Peer, cmd string, args ...string) bool {
 	switch cmd {
 	case "GET", "PING":
 		if k == outErrors {
-			c.WriteError(injectedErr)
+			c.WriteError(n.errText.Load().(string))
 			return true
 		}
 	case "SET", "SETEX", "SETNX", "PSETEX", "GETEX", "EXPIRE", "PEXPIRE", "PERSIST":
 		if k == outErrors || k == outWrites {
-			c.WriteError(injectedErr)
+			c.WriteError(n.errText.Load().(string))
 			return true
 		}
 	case "DEL", "UNLINK":
@@ -172,7 +177,7 @@ func (n *node) hook(c *server.Peer, cmd string, args ...string) bool {
 			n.mu.Lock()
 			n.dels = append(n.dels, delRec{keys: append([]string(nil), args...), inOp: n.w.inOp.Load(), failed: true})
 			n.mu.Unlock()
-			c.WriteError(injectedErr)
+			c.WriteError(n.errText.Load().(string))
 			return true
 		}
 		// executed here so that the record is written after the deletion is complete
@@ -207,6 +212,7 @@ type world struct {
 	nodes []*node // 0: single node; 1,2: the cluster
 	vc    *kit.VClock
 
+	outSeq        int // injected outages so far (selects the text of the error replies)
 	inOp          atomic.Bool
 	envErrs       atomic.Int64 // network-level driver errors (not a server reply)
 	lastEnvErr    atomic.Value
@@ -249,6 +255,7 @@ func newWorld(t *testing.T) *world {
 		}
 		n := &node{name: name, mr: mr, w: w}
 		n.kind.Store(upKind)
+		n.errText.Store(injectedErr)
 		mr.Server().SetPreHook(n.hook)
 		px, err := newProxy(mr.Addr())
 		if err != nil {
@@ -281,6 +288,12 @@ func (w *world) setOutage(n *node, kind string) bool {
 	}
 	if prev == outUnreach {
 		n.px.setDown(false)
+	}
+	if kind == outErrors || kind == outWrites {
+		// what a failing store says is up to the store: mostly an ordinary error text, now and then one
+		// that reads like go-zero's own sentinels (a store failure stays a store failure whatever its text)
+		w.outSeq++
+		n.errText.Store(outageTexts[w.outSeq%len(outageTexts)])
 	}
 	n.kind.Store(kind)
 	if kind == outUnreach {
